@@ -114,6 +114,15 @@ type conc struct {
 	members map[int][]*types.Transaction // id -> member transactions (singles: one)
 	byHash  map[string]int               // head hash -> id
 	expPos  map[int]int                  // id -> member carrying the expiry
+	// hostile representation of groups: the head is ground (nonce) until the 32-byte group header
+	// (the head's hash every member carries) happens to parse as an encoded transaction list;
+	// about 1 hash in 500 does.  Code that asks a *member* for "its group" then gets an empty one.
+	grind map[int]bool
+}
+
+func headerParses(h []byte) bool {
+	var txs types.Transactions
+	return types.Decode(h, &txs) == nil
 }
 
 func (c *conc) sign(tx *types.Transaction, sender string) {
@@ -198,6 +207,15 @@ func (c *conc) build(id int, fee int64, mutate func(i int, tx *types.Transaction
 	// CreateTxGroup put max(sum of fees, minimum) on the head; the model decides the fee
 	g.Txs[0].Fee = fee
 	g.RebuiltGroup()
+	if c.grind[id] && !c.keys.eth[snd[0]] {
+		for i := 0; i < 200000 && !headerParses(g.Txs[0].Header); i++ {
+			g.Txs[0].Nonce++
+			g.RebuiltGroup()
+		}
+		if !headerParses(g.Txs[0].Header) {
+			return nil, nil, fmt.Errorf("could not grind a parsable group header for entry %d", id)
+		}
+	}
 	for i := range g.Txs {
 		doSign(i, g.Txs[i])
 	}
@@ -212,7 +230,8 @@ func newConc(tab map[int]*entry, senders []string, chainID int32, t0 int64, hoff
 		}
 	}
 	c := &conc{tab: tab, chainID: chainID, t0: t0, hoff: hoff, rng: rand.New(rand.NewSource(seed)),
-		good: map[int]*types.Transaction{}, members: map[int][]*types.Transaction{}, byHash: map[string]int{}, expPos: map[int]int{}}
+		good: map[int]*types.Transaction{}, members: map[int][]*types.Transaction{}, byHash: map[string]int{}, expPos: map[int]int{},
+		grind: map[int]bool{}}
 	c.keys = newKeyring(senders, eth, fmt.Sprint(seed%7))
 	for id := 1; id <= len(tab); id++ {
 		e := tab[id]
@@ -221,6 +240,13 @@ func newConc(tab map[int]*entry, senders []string, chainID int32, t0 int64, hoff
 		}
 		if e.Grp > 1 {
 			c.expPos[id] = c.rng.Intn(e.Grp)
+			switch salt {
+			case "grind":
+				c.grind[id] = true
+			case "plain":
+			default:
+				c.grind[id] = c.rng.Intn(2) == 0
+			}
 		}
 		tx, ms, err := c.build(id, e.Fee*feeUnit, nil, nil)
 		if err != nil {
